@@ -560,6 +560,8 @@ def replay_c06(ctx, fl):
             fl.get("st_mode", 0) & 0o7777, (" with .mode(%o)" % (0o100000 | fl.get("perm", 0))) if fl.get("explicit") else "", ans[:100])
     if fl.get("kind") in ("c06s", "c06d", "c06f", "c06c", "c06m"):
         which = {"c06s": "scriptlets_prog" if fl.get("with_prog") else "scriptlets_plain", "c06d": "deps", "c06f": "files", "c06c": "changelog", "c06m": "files_misc"}[fl["kind"]]
+        if fl["kind"] == "c06d" and len(fl.get("which") or []) == 1:
+            which = "dep:" + fl["which"][0]
         ans = ctx.native.ask("readback2", which)
         return not ans.startswith("same"), "real crate: %s set through the public API and read back -> %s" % (which, ans[:160])
     ans = ctx.native.ask("readback", fl["field"], fl.get("value") or "-")
